@@ -23,6 +23,9 @@ struct wrec {
 };
 
 static struct iv_inotify *ino;
+static long rec_wd[4];
+static long rec_ignored[4];
+static int nrec;
 static int ino_registered;
 static int ino_kfd;
 static struct wrec W[MAXW];
@@ -31,9 +34,6 @@ static int next_wd = 1;
 
 /* the records of the current read */
 static struct inotify_event *recaddr[MAXM];
-static long rec_wd[MAXM];
-static long rec_ignored[MAXM];
-static int nrec;
 static int next_rec;		/* first record not yet accounted for */
 static int reads;
 static int P_acts;
@@ -60,9 +60,27 @@ int inotify_add_watch(int fd, const char *path, uint32_t mask)
 	return next_wd++;
 }
 
+/* the kernel forgets a watch descriptor the moment it queues IN_IGNORED for it, or its
+ * first event if the watch is one-shot; removing it afterwards fails with EINVAL although
+ * those events may still be waiting in the buffer that was read */
 int inotify_rm_watch(int fd, int wd)
 {
+	int i, j;
+	long gone = 0;
+
 	sx_assert(fd == ino_kfd && kfds[fd].kind == K_INOTIFY, "C20.rm_watch-on-wrong-descriptor");
+	for (i = 0; i < nrec; i++) {
+		long oneshot = 0;
+		for (j = 0; j < nW; j++)
+			if (W[j].oneshot && W[j].wd == wd)
+				oneshot = 1;
+		gone |= (rec_wd[i] == wd) & (rec_ignored[i] | oneshot);
+	}
+	if (gone) {
+		sx_cover("inotify.rm_watch-of-kernel-removed-watch");
+		errno = EINVAL;
+		return -1;
+	}
 	return 0;
 }
 
